@@ -106,6 +106,12 @@ CHECKS = {
                     'every operation history up to the bound from the empty table through real method-call messages.',
             'ref': 'DESIGN.md 2/C13', 'note': NOTE + ' Peers are stand-ins for BusProtocol; histories are selector-driven (exhaustive within the bound).',
             'technique': SYM + '; inductive one-step check from an arbitrary table against a reference model, plus exhaustive bounded histories'},
+    'C14': {'text': 'Real Bus and BusProtocol objects exchange bytes on recording transports: an addressed message of each type with '
+                    'SYMBOLIC serial, flags, body and a forged sender reaches exactly the owner of the destination once, unchanged except '
+                    'for the true sender, and nobody else (rule holders included); every history up to the bound of connects, '
+                    'disconnects, name requests, unicasts, bus calls and broadcasts is checked for delivery, order and unique names.',
+            'ref': 'DESIGN.md 2/C14', 'note': NOTE + ' Authentication is skipped (C06); histories are selector-driven (exhaustive within the bound).',
+            'technique': SYM + ' for message fields; exhaustive bounded event histories'},
 }
 _TODO = 'check not built yet in this revision (planned, see DESIGN.md section 2)'
 NOT_APPLICABLE = {('C%02d' % i): _TODO for i in range(1, 21)}
